@@ -87,6 +87,9 @@ enum Op {
     /// (either direction, retransmissions not counted) is held back until the removal `rm` has
     /// been executed and answered, then released
     CaseHeld { x: u8, fresh: bool, k: u8, rm: Rm, early_ack: bool },
+    /// Subscribe of x as a background task: the StatusResponse to the first / last priming chunk
+    /// is held back until the removal `rm` has been executed (on another exchange) and answered
+    SubscribeHeld { x: u8, rm: Rm, first: bool, wide: bool },
 }
 
 /// What removes the fabric while the handshake is in flight.
@@ -129,6 +132,17 @@ fn any_op() -> impl Strategy<Value = Op> {
         3 => prop_oneof![0u16..400, 400u16..2500].prop_map(Op::Wait),
         5 => (comm(), 0u8..4).prop_map(|(x, k)| Op::UseOld { x, k }),
         5 => (comm(), 0u8..4).prop_map(|(x, k)| Op::ResumeOld { x, k }),
+        2 => (comm(), comm(), 0u8..4, any::<bool>(), any::<bool>()).prop_map(|(x, by, r, first, wide)| Op::SubscribeHeld {
+            x,
+            first,
+            wide,
+            rm: match r {
+                0 => Rm::Remove { by },
+                1 => Rm::Arm0,
+                2 => Rm::Revoke { by },
+                _ => Rm::Expire,
+            },
+        }),
         2 => (comm(), any::<bool>(), 1u8..7, comm(), 0u8..4, any::<bool>()).prop_map(|(x, fresh, k, by, r, early_ack)| Op::CaseHeld {
             x,
             fresh,
@@ -166,6 +180,8 @@ enum Phase {
     Race { y: u8, secs: u8, pre: u16, delta: u16 },
     /// administrator x removes the fabric y is still commissioning
     EvictPending { x: u8, y: u8, with_case: bool },
+    /// x's fabric (pending or committed) is removed while a subscription of x is being primed
+    Inprime { x: u8, y: u8, z: u8, pending: bool, first: bool, wide: bool, rm: u8, busy: bool },
     /// x's fabric (pending or committed) is removed while a CASE handshake of x is in flight
     Inflight { x: u8, y: u8, z: u8, pending: bool, fresh: bool, k: u8, rm: u8, early_ack: bool },
 }
@@ -186,6 +202,8 @@ fn phase() -> impl Strategy<Value = Phase> {
         3 => (comm(), comm(), comm(), 0u8..4).prop_map(|(x, y, z, ender)| Phase::Linger { x, y, z, ender }),
         3 => (comm(), 20u8..40, 0u16..1000, 0u16..700).prop_map(|(y, secs, pre, delta)| Phase::Race { y, secs, pre, delta }),
         3 => (comm(), comm(), any::<bool>()).prop_map(|(x, y, with_case)| Phase::EvictPending { x, y, with_case }),
+        8 => (comm(), comm(), comm(), any::<bool>(), any::<bool>(), any::<bool>(), 0u8..8, prop::bool::weighted(0.3))
+            .prop_map(|(x, y, z, pending, first, wide, rm, busy)| Phase::Inprime { x, y: if y == x { (x + 1) % N_COMM as u8 } else { y }, z, pending, first, wide, rm, busy }),
         9 => (comm(), comm(), comm(), any::<bool>(), any::<bool>(), 1u8..7, 0u8..8, any::<bool>())
             .prop_map(|(x, y, z, pending, fresh, k, rm, early_ack)| Phase::Inflight { x, y: if y == x { (x + 1) % N_COMM as u8 } else { y }, z, pending, fresh, k, rm, early_ack }),
     ]
@@ -249,6 +267,39 @@ fn expand(p: &Phase) -> Vec<Op> {
                 v.extend([Op::Case { x: *y, fresh: true }, Op::Complete(*y)]);
             }
             v.extend([Op::UseOld { x: *x, k: 0 }, Op::ResumeOld { x: *x, k: 0 }, Op::UseOld { x: *x, k: 1 }]);
+            v
+        }
+        Phase::Inprime { x, y, z, pending, first, wide, rm, busy } => {
+            let mut v = Vec::new();
+            let rm = if *pending {
+                match rm % 8 {
+                    0 | 1 => Rm::Arm0,
+                    2 | 3 => Rm::Revoke { by: *y },
+                    4 => Rm::Remove { by: *y },
+                    5 => Rm::Remove { by: *x },
+                    _ => Rm::Expire,
+                }
+            } else if rm % 3 == 0 {
+                Rm::Remove { by: *y }
+            } else {
+                Rm::Remove { by: *x }
+            };
+            v.extend(expand(&Phase::Full { x: *y, subscribe: *busy, secs: 60 }));
+            if *busy {
+                // after a restart y's resumed subscription keeps the reporter looking for y
+                v.push(Op::Restart);
+            }
+            if *pending {
+                let secs = if rm == Rm::Expire { 3 } else { 60 };
+                v.extend([Op::Pase(*x), Op::Arm(*x, secs), Op::Csr(*x), Op::Root(*x), Op::AddNoc(*x), Op::Case { x: *x, fresh: true }]);
+            } else {
+                v.extend(expand(&Phase::Full { x: *x, subscribe: false, secs: 60 }));
+            }
+            v.push(Op::SubscribeHeld { x: *x, rm, first: *first, wide: *wide });
+            v.push(Op::Wait(300));
+            // the next commissioner gets the index
+            v.extend([Op::Pase(*z), Op::Arm(*z, 60), Op::Csr(*z), Op::Root(*z), Op::AddNoc(*z), Op::Case { x: *z, fresh: true }, Op::Complete(*z)]);
+            v.extend([Op::Wait(1200), Op::UseOld { x: *x, k: 255 }]);
             v
         }
         Phase::Inflight { x, y, z, pending, fresh, k, rm, early_ack } => {
@@ -577,13 +628,28 @@ fn check_tables<CC: rs_matter::crypto::Crypto>(b: &Boot<'_, CC>, t: &mut Tracker
             None => {
                 if t.present.contains_key(&i) {
                     t.subs.insert(s.id, (i, t.gen_of(i)));
+                } else {
+                    // committed for an index that is absent already (its priming was completed after
+                    // the removal): tolerated while the index stays absent, but it belongs to no
+                    // generation the index will ever have
+                    t.subs.insert(s.id, (i, u32::MAX));
                 }
             }
             Some((i0, g0)) => {
                 if *i0 == i && t.present.contains_key(&i) && *g0 != t.gen_of(i) {
                     return Some((
                         "stale:subscription-of-replaced-fabric".into(),
-                        format!("{after}: subscription {} of peer node {:#x} was accepted on an earlier fabric with index {i} (generation {g0}); index {i} now belongs to another fabric (generation {}) and the subscription is still in the table", s.id, s.peer_node_id, t.gen_of(i)),
+                        format!(
+                            "{after}: subscription {} of peer node {:#x} {}; index {i} now belongs to another fabric (generation {}) and the subscription is still in the table",
+                            s.id,
+                            s.peer_node_id,
+                            if *g0 == u32::MAX {
+                                format!("was committed for index {i} when its fabric was already gone (its priming was completed after the removal)")
+                            } else {
+                                format!("was accepted on an earlier fabric with index {i} (generation {g0})")
+                            },
+                            t.gen_of(i)
+                        ),
                     ));
                 }
             }
@@ -881,6 +947,99 @@ fn run_segment<CC: rs_matter::crypto::Crypto>(
                     }
                 }
             }
+            Op::SubscribeHeld { x, rm, first, wide } => {
+                let xi = *x as usize;
+                'held: {
+                    let Some(idx0) = comms[xi].fab else {
+                        p.labels.push("inprime:skipped-no-fabric".into());
+                        break 'held;
+                    };
+                    let gen0 = t.gen_of(idx0);
+                    let Some(sp) = ensure_case(b, comms, t, xi, ctrl_fab, p) else {
+                        p.labels.push("inprime:skipped-no-session".into());
+                        break 'held;
+                    };
+                    // the removal runs on another exchange - of the same session when x removes itself
+                    let rm_sess: Option<(usize, SessPair)> = match rm {
+                        Rm::Remove { by } | Rm::Revoke { by } => {
+                            let yi = *by as usize;
+                            if yi == xi {
+                                Some((xi, sp))
+                            } else if comms[yi].committed && comms[yi].fab.is_some() {
+                                ensure_case(b, comms, t, yi, ctrl_fab, p).map(|s| (yi, s))
+                            } else {
+                                None
+                            }
+                        }
+                        Rm::Arm0 => match comms[xi].pase {
+                            Some(ps) if b.device_has_session(&ps) => Some((xi, ps)),
+                            _ => Some((xi, sp)),
+                        },
+                        Rm::Expire => None,
+                    };
+                    if rm_sess.is_none() && !(*rm == Rm::Expire && b.failsafe_armed_for(idx0)) {
+                        p.labels.push("inprime:skipped-removal-not-possible".into());
+                        break 'held;
+                    }
+                    let gate = std::rc::Rc::new(vh::sim::imdev::SubGate::new(if *first { vh::sim::imdev::HoldChunk::First } else { vh::sim::imdev::HoldChunk::Last }));
+                    let paths: Vec<(Option<u16>, Option<u32>, Option<u32>)> = if *wide { vec![(Some(0), None, None)] } else { vec![(Some(0), Some(CL_BASIC), Some(5))] };
+                    let task = b.subscribe_spawn(xi, sp.ctrl_sid, &paths, 0, 1000, true, gate.clone());
+                    let reached = {
+                        let g = gate.clone();
+                        b.run_until_or_subscribe_end(&task, 3 * SEC, move || g.reached.get().is_some())
+                    };
+                    let mut removal = String::from("-");
+                    let mut gone = false;
+                    if reached {
+                        let o = match (rm, rm_sess) {
+                            (Rm::Remove { .. }, Some((yi, s))) => Some(b.invoke(yi, s.ctrl_sid, &Cmd::RemoveFabric { idx: idx0 })),
+                            (Rm::Arm0, Some((yi, s))) => Some(b.invoke(yi, s.ctrl_sid, &Cmd::ArmFailSafe { secs: 0, breadcrumb: 0 })),
+                            (Rm::Revoke { .. }, Some((yi, s))) => Some(b.invoke(yi, s.ctrl_sid, &Cmd::RevokeCommissioning)),
+                            _ => {
+                                let mut n = 0;
+                                while b.failsafe_armed() && n < 24 {
+                                    b.run_for(500 * MS);
+                                    n += 1;
+                                }
+                                None
+                            }
+                        };
+                        gone = !b.fabric_identities().iter().any(|fi| fi.0 == idx0);
+                        removal = format!("{} gone={gone}", o.map(|o| o.brief()).unwrap_or_else(|| "timer".into()));
+                        if gone {
+                            p.labels.push(format!(
+                                "inprime:removal-at-{}-chunk:{}:{}",
+                                if gate.reached.get() == Some(0) && *first { "first" } else { "last" },
+                                match rm {
+                                    Rm::Remove { by } if *by as usize == xi => "remove-own-same-session",
+                                    Rm::Remove { .. } => "remove-by-other",
+                                    Rm::Arm0 => "arm0",
+                                    Rm::Revoke { .. } => "revoke",
+                                    Rm::Expire => "timer",
+                                },
+                                if *wide { "wildcard" } else { "one-attribute" }
+                            ));
+                            p.labels.push("inprime:removal-inside-a-priming".into());
+                            p.nontrivial = true;
+                        } else {
+                            p.labels.push("inprime:removal-refused".into());
+                        }
+                    } else {
+                        p.labels.push("inprime:priming-over-before-the-hold".into());
+                    }
+                    gate.release.set(true);
+                    let out = b.subscribe_finish(task, 30 * SEC);
+                    // give the reporter a round
+                    b.run_for(100 * MS);
+                    note = format!("hold reached={:?} removal: {removal}; subscribe: subscribed={:?} status={:?} err={:?} chunks={}", gate.reached.get(), out.subscribed, out.status, out.error, out.chunks);
+                    if let Some((id, _)) = out.subscribed {
+                        comms[xi].subs.push((id, idx0, gen0, p.boot_no));
+                        if gone {
+                            p.labels.push("inprime:subscribe-response-after-removal".into());
+                        }
+                    }
+                }
+            }
             Op::CaseHeld { x, fresh, k, rm, early_ack } => {
                 let xi = *x as usize;
                 'held: {
@@ -1171,11 +1330,13 @@ fn run_segment<CC: rs_matter::crypto::Crypto>(
             let reports = b.ctrls[xi].reports.borrow();
             for r in reports.iter().skip(comms[xi].reports_seen) {
                 if let Some(id) = r.subscription_id {
-                    if dead_subs[xi].contains(&id) {
+                    let live_any = comms.iter().any(|c| c.subs.iter().any(|(sid, i, g, bt)| *sid == id && *bt == p.boot_no && t.live(*i, *g)));
+                    let dead_of = (0..N_COMM).find(|y| dead_subs[*y].contains(&id));
+                    if let (Some(y), false) = (dead_of, live_any) {
                         p.verdict = Some(Case::fail(
                             "probe:report-for-dead-subscription",
                             format!(
-                                "step #{step} ({op:?}): commissioner {xi} received a ReportData (with data: {}) for its subscription {id}, made on a fabric that was already gone from the device before this step",
+                                "step #{step} ({op:?}): commissioner {xi} received a ReportData (with data: {}) for subscription {id}, which commissioner {y} made on a fabric that was already gone from the device before this step",
                                 r.has_data
                             ),
                         ));
